@@ -291,10 +291,11 @@ func runC07(cx *Ctx, r *Report) {
 			return hasPrefix(x.ev, "service:EarnedFeesKey=0x18") && strings.Contains(x.ev.Args[1].LooseString(), "sdk.Coins.Add(")
 		}) {
 			nResp++
-			fr := p.ev.Fr.Parent
-			tax := pick(evs, "bank.SendCoinsFromModuleToModule", func(x hev) bool { return x.ev.Args[1].LooseString() == reqAcc && x.ev.Fr == fr })
-			ot := pick(evs, "store.set", func(x hev) bool { return hasPrefix(x.ev, "service:OwnerEarnedFeesKey=0x19") && x.ev.Fr.Parent == fr })
-			ok := len(tax) == 1 && len(ot) == 1 && tax[0].ev.Args[2].LooseString() == "keeper.feeCollectorName"
+			// the frame that raises the provider tally (directly or through thin helpers) also
+			// forwards the tax and raises the owner tally: the closest such events
+			tax, fr := closestTo(p, pick(evs, "bank.SendCoinsFromModuleToModule", func(x hev) bool { return x.ev.Args[1].LooseString() == reqAcc }))
+			ot, fr2 := closestTo(p, pick(evs, "store.set", func(x hev) bool { return hasPrefix(x.ev, "service:OwnerEarnedFeesKey=0x19") }))
+			ok := len(tax) == 1 && len(ot) == 1 && fr == fr2 && fr != nil && tax[0].ev.Args[2].LooseString() == "keeper.feeCollectorName"
 			if ok {
 				taxS := lastArgS(tax[0].ev)
 				earned := findSub(p.ev.Args[1], func(x *Term) bool { return x.Op == "call" && x.Name == "sdk.Coins.SafeSub" })
@@ -303,7 +304,7 @@ func runC07(cx *Ctx, r *Report) {
 					strings.Contains(taxS, "TruncateInt") && strings.Contains(taxS, "ServiceFeeTax") && strings.Contains(taxS, earned.Args[0].LooseString()) &&
 					strings.Contains(earned.Args[1].LooseString(), "TruncateInt") &&
 					strings.Contains(ot[0].ev.Args[1].LooseString(), "sdk.Coins.Add(") &&
-					strings.HasSuffix(earned.Args[0].LooseString(), ".ServiceFee") && tax[0].ev.Fr.Call != nil && orderedBefore(tax[0].ev, p.ev)
+					strings.HasSuffix(earned.Args[0].LooseString(), ".ServiceFee") && fr.Call != nil && orderedBefore(tax[0].ev, p.ev)
 			}
 			r.check(ok, "respond-split", name, p.ev.Pos(cx), "⌊fee·tax⌋ goes from the request escrow to the fee collector and fee−tax (one term, fee = the request's recorded ServiceFee) is added to both the provider and the owner tally", name+": the fee of an answered request is not split as tax→collector and (fee−tax)→both tallies with shared terms")
 		}
@@ -377,7 +378,7 @@ func runC07(cx *Ctx, r *Report) {
 				// a delete of the same prefix must precede in the caller's frame
 				cleared := false
 				for _, d := range pick(per[name], "store.delete", func(x hev) bool { return hasPrefix(x.ev, pfx) }) {
-					if d.ev.Fr.Parent == s.ev.Fr.Parent && d.ev.Fr.Call != nil && s.ev.Fr.Call != nil && instrDominates(d.ev.Fr.Call, s.ev.Fr.Call) {
+					if _, sd, ss := commonFrame(d.ev, s.ev); sd != nil && ss != nil && sd != ss && sd != d.ev.Site && ss != s.ev.Site && instrDominates(sd, ss) {
 						cleared = true
 					}
 				}
@@ -460,4 +461,27 @@ func runC07(cx *Ctx, r *Report) {
 	r.requireCount("respond-split", 2)
 	r.requireCount("fee-provenance", 2)
 	r.requireCount("tally-decrease-complete", 1)
+}
+
+// closestTo: the candidates whose lowest common frame with the anchor is the deepest one
+// (the events of the same logical step, however many thin helpers sit in between).
+func closestTo(a hev, cands []hev) ([]hev, *Frame) {
+	var best *Frame
+	var out []hev
+	for _, c := range cands {
+		if c.ev == a.ev {
+			continue
+		}
+		f, _, _ := commonFrame(a.ev, c.ev)
+		if f == nil {
+			continue
+		}
+		switch {
+		case best == nil || f.Depth > best.Depth:
+			best, out = f, []hev{c}
+		case f == best:
+			out = append(out, c)
+		}
+	}
+	return out, best
 }
